@@ -45,7 +45,13 @@ def profile(**kw):
 
 def _absence(rng, horizon=14, maxn=3):
     n = rng.randint(1, maxn)
-    return sorted(rng.sample(range(0, horizon), n))
+    out = sorted(rng.sample(range(0, horizon), n))
+    r = rng.random()
+    if r < 0.25 and len(out) >= 2:
+        rng.shuffle(out)                  # a user's list need not be in ascending order ...
+    elif r < 0.30:
+        out.append(rng.choice(out))       # ... nor free of repetitions
+    return out
 
 
 def gen_random(rng, prof=None):
@@ -106,6 +112,8 @@ def gen_random(rng, prof=None):
     for k in range(1, nwp):
         if rng.random() < 0.35:
             wps[k]["inputs"].append(rng.randrange(0, k))
+            if rng.random() < 0.2:
+                wps[k]["ctor_inputs"] = True      # link given to the constructor (one-sided)
     for i, t in enumerate(tasks):
         if nwp and t["component"] is not None and not t["auto"] and rng.random() < (0.9 if frich else 0.5):
             t["need_facility"] = True
@@ -199,6 +207,10 @@ def gen_random(rng, prof=None):
         rng.shuffle(absence)              # the user's list need not be sorted
     sim = dict(rule=rng.randrange(0, 9), absence=absence, auto_flag=rng.random() < 0.5,
                max_time=p["max_time"])
+    if n >= 2 and rng.random() < p.get("same_name", 0.06):
+        # task names need not be unique (skills are per name, targeting and dependencies per object)
+        j = rng.randrange(1, n)
+        tasks[j]["name"] = tasks[rng.randrange(0, j)]["name"]
     return dict(tasks=tasks, comps=comps, wps=wps, teams=teams, sim=sim, task_order=task_order)
 
 
@@ -287,7 +299,8 @@ def gen_feasible(rng, cls=None):
     kinds = (FS, SS) if cls == 1 else (FS, SS, SF, FF)
     prof = profile(kinds=kinds, facilities=False, comps=(rng.random() < 0.5), nested=False,
                    fixed_lists=False, ensure_worker=0.0, max_tasks=7, proj_absence=True,
-                   p_res_absence=rng.choice([0.25, 0.7]))
+                   p_res_absence=rng.choice([0.25, 0.7]),
+                   same_name=(0.06 if cls == 1 else 0.0))   # class 2: a worker "skilled for that task only" needs unique names
     spec = gen_random(rng, prof)
     tasks, teams = spec["tasks"], spec["teams"]
     for t in tasks:
